@@ -574,6 +574,10 @@ def corpus():
         (bud(['Ordered'], supp=[row('2025-02-07', 'Book', 100)]), [{'desc': 'AMZN MKTP US ZQ7', 'amount': 25.0}]),   # supplemental rows + data
         (b_data, [{'desc': 'AMZN MKTP 4411 ZQ7', 'amount': 25.0}]),                                          # supplemental data only
         (b_case, [{'desc': 'ZED MART ZQ7', 'amount': 50.0}]),
+        # first_match ignores `priority:` — file order decides, for up and for explain alike
+        (bud(['Mystery Low', 'Prio']), [{'desc': 'MYSTERY SHOP ZQ7', 'amount': 150.0}]),
+        (bud(['Netflix', 'Netflix Premium', 'Prio', 'Mystery Low']), [{'desc': 'MYSTERY SHOP ZQ7', 'amount': 15.0},
+                                                                      {'desc': 'NETFLIX PREMIUM 8841 ZQ7', 'amount': 15.5}]),
         (b_new, [{'desc': 'COSTCO WHSE ZQ7', 'amount': 300.0}]),
         (b_two, [{'desc': 'CITY PARKING ZQ7', 'amount': 10.0}]),
         (bud([], kind='csv', csv=[B.CSV_POOL[9], ['SHOP', 'Shop', 'Shopping', 'Misc', '']]), [{'desc': 'MYSTERY SHOP ZQ7', 'amount': 150.0}]),
